@@ -45,6 +45,26 @@ fn opts(o: &Value) -> Result<Options, String> {
     Ok(r)
 }
 
+/// run one API call; a panic inside it is an observation of that call, not of the whole request
+fn guarded<T>(f: impl FnOnce() -> Result<T, ErrorMessages>) -> Result<Result<T, ErrorMessages>, String> {
+    std::panic::catch_unwind(std::panic::AssertUnwindSafe(f)).map_err(|p| {
+        if let Some(s) = p.downcast_ref::<String>() {
+            s.clone()
+        } else if let Some(s) = p.downcast_ref::<&str>() {
+            s.to_string()
+        } else {
+            "?".to_string()
+        }
+    })
+}
+
+fn res_g(r: Result<Result<String, ErrorMessages>, String>) -> Value {
+    match r {
+        Ok(r) => res(r),
+        Err(p) => json!({ "panic": p }),
+    }
+}
+
 fn res(r: Result<String, ErrorMessages>) -> Value {
     match r {
         Ok(sql) => json!({ "sql": sql }),
@@ -62,16 +82,20 @@ fn staged_full(req: &Value) -> Value {
         .unwrap_or_else(|| vec![json!({})]);
 
     // stage 1: source -> PL
-    let pl = match prqlc::prql_to_pl(prql) {
-        Ok(pl) => pl,
-        Err(e) => {
+    let pl = match guarded(|| prqlc::prql_to_pl(prql)) {
+        Ok(Ok(pl)) => pl,
+        r => {
             out.insert("stage".into(), json!("prql_to_pl"));
-            out.insert("errors".into(), err_core(&e));
+            match r {
+                Ok(Err(e)) => out.insert("errors".into(), err_core(&e)),
+                Err(p) => out.insert("panic_in_prql_to_pl".into(), json!(p)),
+                _ => None,
+            };
             // one-shot must fail the same way under every option set
             let one: Vec<Value> = option_sets
                 .iter()
                 .map(|o| match opts(o) {
-                    Ok(o) => res(prqlc::compile(prql, &o)),
+                    Ok(o) => res_g(guarded(|| prqlc::compile(prql, &o))),
                     Err(e) => json!({ "option_error": e }),
                 })
                 .collect();
@@ -103,6 +127,9 @@ fn staged_full(req: &Value) -> Value {
         let plj2 = prqlc::json::from_pl(pl2).unwrap_or_default();
         out.insert("pl_json_eq".into(), json!(parsed(&plj) == parsed(&plj2)));
         out.insert("pl_text_eq".into(), json!(plj == plj2));
+        if plj != plj2 {
+            out.insert("pl_json2".into(), json!(plj2));
+        }
     }
     // stage 3: PL -> RQ, from the original and from the re-read PL
     let rq_direct = prqlc::pl_to_rq(pl.clone());
@@ -112,6 +139,9 @@ fn staged_full(req: &Value) -> Value {
         (Ok(a), Some(Ok(b))) => {
             out.insert("rq_of_reread_pl_eq".into(), json!(a == b));
             let rqj = prqlc::json::from_rq(b).unwrap_or_default();
+            if a != b {
+                out.insert("rq_json_direct".into(), json!(prqlc::json::from_rq(a).unwrap_or_default()));
+            }
             if req.get("want_json").and_then(|v| v.as_bool()).unwrap_or(false) {
                 out.insert("rq_json".into(), json!(rqj));
             }
@@ -121,6 +151,9 @@ fn staged_full(req: &Value) -> Value {
                     let rqj2 = prqlc::json::from_rq(&r2).unwrap_or_default();
                     out.insert("rq_json_eq".into(), json!(parsed(&rqj) == parsed(&rqj2)));
                     out.insert("rq_text_eq".into(), json!(rqj == rqj2));
+                    if rqj != rqj2 {
+                        out.insert("rq_json2".into(), json!(rqj2));
+                    }
                     rq2 = Some(r2);
                 }
                 Err(e) => {
@@ -131,6 +164,7 @@ fn staged_full(req: &Value) -> Value {
         (Err(a), Some(Err(b))) => {
             out.insert("rq_errors_eq".into(), json!(err_core(a) == err_core(b)));
             out.insert("rq_errors".into(), err_core(a));
+            out.insert("rq_errors_staged".into(), err_core(b));
         }
         (a, Some(b)) => {
             out.insert(
@@ -150,7 +184,7 @@ fn staged_full(req: &Value) -> Value {
                 continue;
             }
         };
-        let one = res(prqlc::compile(prql, &o));
+        let one = res_g(guarded(|| prqlc::compile(prql, &o)));
         let direct = match &rq_direct {
             Ok(rq) => res(prqlc::rq_to_sql(rq.clone(), &o)),
             Err(e) => json!({ "errors": err_core(e) }),
@@ -184,6 +218,30 @@ pub fn dispatch(op: &str, req: &Value) -> Option<Value> {
             Err(e) => errs(&e),
         },
         "staged_full" => staged_full(req),
+        // does serde_json read back the f64 it wrote?  {"texts": [..]} -> per text: [rust-exact bits, serde text, bits after serde_json read]
+        "f64_rt" => {
+            let v: Vec<Value> = req
+                .get("texts")
+                .and_then(|v| v.as_array())
+                .cloned()
+                .unwrap_or_default()
+                .iter()
+                .map(|t| {
+                    let t = t.as_str().unwrap_or("");
+                    match t.parse::<f64>() {
+                        Ok(x) => {
+                            let w = serde_json::to_string(&x).unwrap_or_default();
+                            let back = serde_json::from_str::<f64>(&w).ok();
+                            json!({"text": t, "written": w, "finite": x.is_finite(),
+                                   "exact": back.map(|b| b.to_bits() == x.to_bits()).unwrap_or(false),
+                                   "reread": back.map(|b| serde_json::to_string(&b).unwrap_or_default())})
+                        }
+                        Err(_) => json!({"text": t, "unparsable": true}),
+                    }
+                })
+                .collect();
+            json!({ "results": v })
+        }
         // JSON -> PL -> JSON (and optionally on to SQL), for documents the caller edited
         "pl_json_rt" => match prqlc::json::to_pl(s(req, "json")) {
             Ok(pl) => {
